@@ -469,8 +469,10 @@ class Harness:
         self.last_status = self.settle(allow_limbo=True)
         return None
 
-    def start_pause_after(self, k, starter=("start",)):
-        """start (or a bounded run) and stop() exactly after the handler with trace index k."""
+    def start_pause_after(self, k, starter=("start",), hold_until_stop_returned=False, while_held=None):
+        """start (or a bounded run) and stop() exactly after the handler with trace index k.
+        hold_until_stop_returned: the handler stays inside its event until stop() has given up waiting for the run
+        thread (pydsol waits 1 s) and returned; while_held() is then called with the handler still inside."""
         from pydsol.core.simulator import RunState
         m = self.model
         m.gate_at = k
@@ -512,6 +514,10 @@ class Harness:
                 if _time.monotonic() > deadline:
                     break
                 _time.sleep(0)
+            if hold_until_stop_returned:
+                th.join(LIVENESS_S / 2)
+                if while_held is not None and not th.is_alive():
+                    while_held()
             m.gate.set()
             th.join(LIVENESS_S)
             err = box.get("e")
